@@ -52,14 +52,13 @@ Lemma raw_case rt id s n :
   impl_read rt (Raw id) s n = Some (spec_window rt (Raw id) s n).
 Proof.
   intros [Hspf Hfo] Hn Hc. unfold Field.covered in Hc. simpl in Hc.
-  apply app_nil_inv in Hc. destruct Hc as [Hh Hc]. apply tag_if_nil in Hh.
-  simpl. rewrite Hh. unfold raw_read, Field.spec_window, Field.spec_count. cbn [Field.eof ecount].
+  simpl. unfold raw_read, Field.spec_window, Field.spec_count. cbn [Field.eof ecount].
   set (r := db id) in *. set (st := raw_start r) in *.
   assert (Hst : 0 <= st) by (unfold st, raw_start; nia).
   destruct (Z.leb_spec n 0).
   { assert (n = 0) by lia. subst n. simpl. rewrite zrange_nil; [reflexivity|lia]. }
-  apply app_nil_inv in Hc. destruct Hc as [Hp Hneg].
-  apply tag_if_nil in Hp. apply tag_if_nil in Hneg. apply Z.ltb_ge in Hneg.
+  replace (n <=? 0) with false in Hc by (symmetry; apply Z.leb_gt; lia).
+  pose proof (tag_if_nil _ _ Hc) as Hp.
   set (len := zlen (r_data r)). assert (0 <= len) by apply zlen_nonneg.
   destruct (Z.ltb_spec s st) as [Hlt|Hge].
   - (* window starts in the frame-offset padding *)
@@ -68,8 +67,9 @@ Proof.
     destruct (Z.ltb_spec n (st - s)) as [Hall|Hpart].
     + (* all padding *)
       replace (0 <? n - n) with false by (symmetry; apply Z.ltb_ge; lia).
-      replace (s + n <? 0) with false by (symmetry; apply Z.ltb_ge; lia).
-      simpl orb. simpl andb. cbv iota. rewrite app_nil_r.
+      replace ((false || true && (0 <=? s + n)) && (s + n <? 0)) with false
+        by (destruct (Z.leb_spec 0 (s + n)); destruct (Z.ltb_spec (s + n) 0); simpl; auto; lia).
+      cbv iota. rewrite app_nil_r.
       replace (Z.min n (Z.max 0 (st + len - s))) with n by lia.
       rewrite (repeatZ_map _ n s). f_equal. apply map_zrange_ext. intros k Hk.
       simpl. fold r. fold st. replace (k <? st) with true by (symmetry; apply Z.ltb_lt; lia). auto.
@@ -174,7 +174,6 @@ Qed.
 (* ---- unfolding equations ---------------------------------------------------- *)
 Lemma impl_read_bin rt o g h s n :
   impl_read rt (Bin o g h) s n =
-  if s =? -1 then None else
   obind (impl_read rt g s n) (fun X =>
   let n1 := zlen X in
   if n1 =? 0 then Some [] else
@@ -185,7 +184,7 @@ Lemma impl_read_bin rt o g h s n :
   let n2 := zlen Y in
   if b_lincom o then
     if n2 =? 0 then Some [] else
-    let n1' := if n2 * s1 =? n1 * s2 then n1 else n2 * s1 / s2 in
+    let n1' := if n2 * s1 <? n1 * s2 then n2 * s1 / s2 else n1 in
     Some (map (fun i => bkern A o rt (buf A X i) (buf A Y (i * s2 / s1))) (zrange 0 n1'))
   else
     let n1' := if (0 <? n2) && (n2 * s1 <? n1 * s2) then n2 * s1 / s2 else n1 in
@@ -194,19 +193,13 @@ Proof. reflexivity. Qed.
 
 Lemma uncovered_bin rt o g h s n :
   uncovered rt (Bin o g h) s n =
-  tag_if (s =? -1) THere ++
   (let s1 := spf g in let s2 := spf h in
    let c1 := spec_count g s n in
    uncovered rt g s n ++
    (if c1 <=? 0 then [] else
-    tag_if (Z.quot (s * s2) s1 =? -1) THere ++
-    if b_lincom o then
-      tag_if (negb (divides s1 s2)) TLincomRate ++
-      uncovered F64 h (s * s2 / s1) (cdiv (c1 * s2) s1)
-    else
-      tag_if (negb (divides s1 (s * s2))) TUnaligned ++
-      tag_if (negb (eltb (s * s2 / s1) (eof h))) TEmpty2 ++
-      uncovered (b_in2 o) h (s * s2 / s1) (cdiv (c1 * s2) s1))).
+    tag_if (negb (divides s1 (s * s2))) TUnaligned ++
+    (if b_lincom o then [] else tag_if (negb (eltb (s * s2 / s1) (eof h))) TEmpty2) ++
+    uncovered (b_in2 o) h (s * s2 / s1) (cdiv (c1 * s2) s1))).
 Proof. reflexivity. Qed.
 
 Lemma eltb_elt k e : eltb k e = true -> elt k e.
@@ -215,8 +208,16 @@ Proof. destruct e; simpl; auto. intro H. apply Z.ltb_lt in H. exact H. Qed.
 Lemma spec_window_nil rt f s n : spec_count f s n <= 0 -> spec_window rt f s n = [].
 Proof. intro H. unfold Field.spec_window. rewrite zrange_nil; auto. Qed.
 
-Lemma b_lincom_in2 o : b_lincom o = true -> b_in2 o = F64.
-Proof. destruct o; simpl; auto; discriminate. Qed.
+(* the second input is exhausted at the (aligned) start: nothing is left *)
+Lemma cap_zero (E : ext) s q c s1 s2 num2 :
+  0 < s1 -> 0 < s2 -> 0 <= c -> s * s2 = q * s1 -> 0 < num2 ->
+  ecount E q num2 = 0 -> cap (escale E s1 s2) s c = 0.
+Proof.
+  intros H1 H2 Hc Hq Hn. destruct E as [e2|]; simpl; [|lia]. intro Hz.
+  assert (He : e2 <= q) by lia.
+  rewrite (scale_shift e2 s q s1 s2 H2 Hq).
+  assert ((e2 - q) * s1 / s2 < 1) by (apply div_lt_iff; nia). lia.
+Qed.
 
 (* ---- two inputs ------------------------------------------------------------ *)
 Lemma bin_case rt o g h s n :
@@ -227,9 +228,8 @@ Lemma bin_case rt o g h s n :
 Proof.
   intros IHg IHh [Hwg Hwh] Hn Hc.
   unfold Field.covered in Hc. rewrite uncovered_bin in Hc.
-  apply app_nil_inv in Hc. destruct Hc as [Hh Hc]. apply tag_if_nil in Hh.
   cbv zeta in Hc. apply app_nil_inv in Hc. destruct Hc as [Hcg Hc].
-  rewrite impl_read_bin, Hh. rewrite (IHg rt s n Hwg Hn Hcg). cbn [obind]. cbv zeta.
+  rewrite impl_read_bin. rewrite (IHg rt s n Hwg Hn Hcg). cbn [obind]. cbv zeta.
   rewrite zlen_spec_window by auto.
   pose proof (spf_pos g Hwg) as H1. pose proof (spf_pos h Hwh) as H2.
   set (s1 := spf g) in *. set (s2 := spf h) in *.
@@ -244,69 +244,52 @@ Proof.
   { f_equal. symmetry. apply spec_window_nil. rewrite Hcount.
     pose proof (cap_le (escale (eof h) s1 s2) s c1). lia. }
   replace (c1 <=? 0) with false in Hc by (symmetry; apply Z.leb_gt; lia).
-  apply app_nil_inv in Hc. destruct Hc as [_ Hc].
-  assert (Hvals : forall n1 c2 (q : Z) rt2,
-    s * s2 = q * s1 ->
+  apply app_nil_inv in Hc. destruct Hc as [Hd Hc]. apply tag_if_nil in Hd. apply negb_false_iff in Hd.
+  apply app_nil_inv in Hc. destruct Hc as [He Hch].
+  pose proof (divides_spec s1 (s * s2) H1 Hd) as Hq.
+  set (q := s * s2 / s1) in *.
+  destruct (quot_exact (s * s2) s1 q H1 Hq) as [Hquot _]. rewrite Hquot.
+  assert (Hnum : 0 < cdiv (c1 * s2) s1) by (apply cdiv_pos; nia).
+  rewrite (IHh (b_in2 o) q (cdiv (c1 * s2) s1) Hwh ltac:(lia) Hch). cbn [obind].
+  rewrite zlen_spec_window by lia.
+  unfold Field.spec_count.
+  set (c2 := ecount (eof h) q (cdiv (c1 * s2) s1)).
+  assert (Hc2nn : 0 <= c2) by (apply ecount_nonneg; lia).
+  assert (Hvals : forall n1,
     n1 = cap (escale (eof h) s1 s2) s c1 ->
-    c2 = spec_count h q (cdiv (c1 * s2) s1) ->
     (forall i, 0 <= i < n1 -> i * s2 / s1 < c2) ->
-    rt2 = b_in2 o ->
     map (fun i => bkern A o rt (buf A (spec_window rt g s n) i)
-                   (buf A (spec_window rt2 h q (cdiv (c1 * s2) s1)) (i * s2 / s1))) (zrange 0 n1)
+                   (buf A (spec_window (b_in2 o) h q (cdiv (c1 * s2) s1)) (i * s2 / s1))) (zrange 0 n1)
     = spec_window rt (Bin o g h) s n).
-  { intros n1 c2 q rt2 Hq Hn1 Hc2 Hb ->. unfold Field.spec_window at 3. rewrite Hcount, <- Hn1.
+  { intros n1 Hn1 Hb. unfold Field.spec_window at 3. rewrite Hcount, <- Hn1.
     apply map_zrange_ext2. intros i Hi. rewrite !Z.add_0_l.
     assert (n1 <= c1) by (rewrite Hn1; apply cap_le).
     rewrite buf_spec_window by (rewrite Ec1; lia).
     assert (0 <= i * s2 / s1) by (apply Z.div_pos; [apply Z.mul_nonneg_nonneg; lia | lia]).
-    rewrite buf_spec_window by (rewrite <- Hc2; specialize (Hb i Hi); lia).
+    rewrite buf_spec_window by (unfold Field.spec_count; fold c2; specialize (Hb i Hi); lia).
     cbn [Field.spec_val]. rewrite Es1, Es2. rewrite (align_index s i s1 s2 q H1 Hq).
     reflexivity. }
   destruct (b_lincom o) eqn:Hlin.
-  - (* LINCOM *)
-    apply app_nil_inv in Hc. destruct Hc as [Hd Hch]. apply tag_if_nil in Hd.
-    apply negb_false_iff in Hd. pose proof (divides_spec s1 s2 H1 Hd) as Hk.
-    set (k := s2 / s1) in *.
-    assert (Hkpos : 0 < k) by nia.
-    assert (Hq : s * s2 = (s * k) * s1) by nia.
-    destruct (quot_exact (s * s2) s1 (s * k) H1 Hq) as [Hquot Hdiv].
-    rewrite Hquot. rewrite Hdiv in Hch.
-    assert (Hnum : cdiv (c1 * s2) s1 = c1 * k).
-    { replace (c1 * s2) with (c1 * k * s1) by nia. apply cdiv_mul. lia. }
-    rewrite (b_lincom_in2 o Hlin) in *.
-    assert (Hnn : 0 <= cdiv (c1 * s2) s1) by (rewrite Hnum; nia).
-    rewrite (IHh F64 _ _ Hwh Hnn Hch). cbn [obind].
-    rewrite zlen_spec_window by auto.
-    pose proof (lin_stage (eof h) s c1 s1 k H1 Hkpos ltac:(lia)) as Hst. cbv zeta in Hst.
-    replace (k * s1) with s2 in Hst by lia. rewrite <- Hnum in Hst.
-    unfold Field.spec_count.
-    destruct Hst as [Hst0 Hst1].
-    destruct (Z.eqb_spec (ecount (eof h) (s * k) (cdiv (c1 * s2) s1)) 0) as [Hz2|Hnz2].
-    + f_equal. symmetry. apply spec_window_nil. rewrite Hcount, (Hst0 Hz2). lia.
-    + assert (Hp2 : 0 < ecount (eof h) (s * k) (cdiv (c1 * s2) s1)).
-      { pose proof (ecount_nonneg (eof h) (s * k) (cdiv (c1 * s2) s1) Hnn). lia. }
-      destruct (Hst1 Hp2) as [Hn1 Hb]. f_equal.
-      eapply Hvals; [exact Hq|exact Hn1|reflexivity|exact Hb|reflexivity].
+  - (* LINCOM: an empty second read ends the field cleanly *)
+    destruct (Z.eqb_spec c2 0) as [Hz2|Hnz2].
+    + f_equal. symmetry. apply spec_window_nil. rewrite Hcount.
+      rewrite (cap_zero (eof h) s q c1 s1 s2 _ H1 H2 Hc1 Hq Hnum Hz2). lia.
+    + assert (Helt : elt q (eof h)) by (apply (ecount_pos_elt _ q (cdiv (c1 * s2) s1)); fold c2; lia).
+      pose proof (bin_stage (eof h) s q c1 s1 s2 H1 H2 ltac:(lia) Hq Helt) as Hst.
+      cbv zeta in Hst. fold c2 in Hst. destruct Hst as (Hp2 & Hn1 & Hb).
+      replace (0 <? c2) with true in Hn1, Hb by (symmetry; apply Z.ltb_lt; lia).
+      rewrite andb_true_l in Hn1, Hb.
+      f_equal. apply Hvals; auto.
   - (* MULTIPLY / DIVIDE / WINDOW *)
-    apply app_nil_inv in Hc. destruct Hc as [Hd Hc]. apply tag_if_nil in Hd.
-    apply app_nil_inv in Hc. destruct Hc as [He Hch]. apply tag_if_nil in He.
-    apply negb_false_iff in Hd. apply negb_false_iff in He.
-    pose proof (divides_spec s1 (s * s2) H1 Hd) as Hq.
-    set (q := s * s2 / s1) in *.
-    destruct (quot_exact (s * s2) s1 q H1 Hq) as [Hquot _]. rewrite Hquot.
-    assert (Hnn : 0 <= cdiv (c1 * s2) s1) by (pose proof (cdiv_pos (c1 * s2) s1 H1 ltac:(nia)); lia).
-    rewrite (IHh _ _ _ Hwh Hnn Hch). cbn [obind].
-    rewrite zlen_spec_window by auto.
+    apply tag_if_nil in He. apply negb_false_iff in He.
     pose proof (bin_stage (eof h) s q c1 s1 s2 H1 H2 ltac:(lia) Hq (eltb_elt _ _ He)) as Hst.
-    cbv zeta in Hst. destruct Hst as (Hp2 & Hn1 & Hb).
-    unfold Field.spec_count.
-    f_equal. eapply Hvals; [exact Hq|exact Hn1|reflexivity|exact Hb|reflexivity].
+    cbv zeta in Hst. fold c2 in Hst. destruct Hst as (Hp2 & Hn1 & Hb).
+    f_equal. apply Hvals; auto.
 Qed.
 
 (* ---- three inputs (LINCOM 3) -------------------------------------------------- *)
 Lemma impl_read_tri rt o g h l s n :
   impl_read rt (Tri o g h l) s n =
-  if s =? -1 then None else
   obind (impl_read rt g s n) (fun X =>
   let n1 := zlen X in
   if n1 =? 0 then Some [] else
@@ -314,31 +297,29 @@ Lemma impl_read_tri rt o g h l s n :
   obind (impl_read F64 h (Z.quot (s * s2) s1) (cdiv (n1 * s2) s1)) (fun Y =>
   let n2 := zlen Y in
   if n2 =? 0 then Some [] else
-  let n1' := if n2 * s1 =? n1 * s2 then n1 else n2 * s1 / s2 in
+  let n1' := if n2 * s1 <? n1 * s2 then n2 * s1 / s2 else n1 in
   if cdiv (n1' * s3) s1 =? 0 then None
   else
   obind (impl_read F64 l (Z.quot (s * s3) s1) (cdiv (n1' * s3) s1)) (fun W =>
   let n3 := zlen W in
   if n3 =? 0 then Some [] else
-  let n1'' := if n3 * s1 =? n1' * s3 then n1' else n3 * s1 / s3 in
+  let n1'' := if n3 * s1 <? n1' * s3 then n3 * s1 / s3 else n1' in
   Some (map (fun i => tkern A o rt (buf A X i) (buf A Y (i * s2 / s1)) (buf A W (i * s3 / s1)))
             (zrange 0 n1''))))).
 Proof. reflexivity. Qed.
 
 Lemma uncovered_tri rt o g h l s n :
   uncovered rt (Tri o g h l) s n =
-  tag_if (s =? -1) THere ++
   (let s1 := spf g in let s2 := spf h in let s3 := spf l in
    let c1 := spec_count g s n in
    uncovered rt g s n ++
    (if c1 <=? 0 then [] else
-    tag_if ((Z.quot (s * s2) s1 =? -1) || (Z.quot (s * s3) s1 =? -1)) THere ++
-    tag_if (negb (divides s1 s2)) TLincomRate ++
+    tag_if (negb (divides s1 (s * s2))) TUnaligned ++
     uncovered F64 h (s * s2 / s1) (cdiv (c1 * s2) s1) ++
     let c2 := spec_count h (s * s2 / s1) (cdiv (c1 * s2) s1) in
     if c2 <=? 0 then [] else
-    let n1 := if c2 * s1 =? c1 * s2 then c1 else c2 * s1 / s2 in
-    tag_if (negb (divides s1 s3)) TLincomRate ++
+    let n1 := if c2 * s1 <? c1 * s2 then c2 * s1 / s2 else c1 in
+    tag_if (negb (divides s1 (s * s3))) TUnaligned ++
     tag_if (cdiv (n1 * s3) s1 =? 0) TAllocZero ++
     uncovered F64 l (s * s3 / s1) (cdiv (n1 * s3) s1))).
 Proof. reflexivity. Qed.
@@ -355,9 +336,8 @@ Lemma tri_case rt o g h l s n :
 Proof.
   intros IHg IHh IHl (Hwg & Hwh & Hwl) Hn Hc.
   unfold Field.covered in Hc. rewrite uncovered_tri in Hc.
-  apply app_nil_inv in Hc. destruct Hc as [Hh Hc]. apply tag_if_nil in Hh.
   cbv zeta in Hc. apply app_nil_inv in Hc. destruct Hc as [Hcg Hc].
-  rewrite impl_read_tri, Hh. rewrite (IHg rt s n Hwg Hn Hcg). cbn [obind]. cbv zeta.
+  rewrite impl_read_tri. rewrite (IHg rt s n Hwg Hn Hcg). cbn [obind]. cbv zeta.
   rewrite zlen_spec_window by auto.
   pose proof (spf_pos g Hwg) as H1. pose proof (spf_pos h Hwh) as H2. pose proof (spf_pos l Hwl) as H3.
   set (s1 := spf g) in *. set (s2 := spf h) in *. set (s3 := spf l) in *.
@@ -374,30 +354,26 @@ Proof.
   { f_equal. symmetry. apply spec_window_nil. rewrite Hcount.
     pose proof (cap_le e3 s (cap e2 s c1)). pose proof (cap_le e2 s c1). lia. }
   replace (c1 <=? 0) with false in Hc by (symmetry; apply Z.leb_gt; lia).
-  apply app_nil_inv in Hc. destruct Hc as [_ Hc].
   apply app_nil_inv in Hc. destruct Hc as [Hd2 Hc]. apply tag_if_nil in Hd2. apply negb_false_iff in Hd2.
   apply app_nil_inv in Hc. destruct Hc as [Hch Hc].
-  pose proof (divides_spec s1 s2 H1 Hd2) as Hk2. set (k2 := s2 / s1) in *.
-  assert (Hk2pos : 0 < k2) by nia.
-  assert (Hq2 : s * s2 = (s * k2) * s1) by nia.
-  destruct (quot_exact (s * s2) s1 (s * k2) H1 Hq2) as [Hquot2 Hdiv2].
-  rewrite Hquot2. rewrite Hdiv2 in Hch, Hc.
-  assert (Hnum2 : cdiv (c1 * s2) s1 = c1 * k2).
-  { replace (c1 * s2) with (c1 * k2 * s1) by nia. apply cdiv_mul. lia. }
-  assert (Hnn2 : 0 <= cdiv (c1 * s2) s1) by (rewrite Hnum2; nia).
-  rewrite (IHh F64 _ _ Hwh Hnn2 Hch). cbn [obind]. rewrite zlen_spec_window by auto.
-  pose proof (lin_stage (eof h) s c1 s1 k2 H1 Hk2pos ltac:(lia)) as Hst. cbv zeta in Hst.
-  replace (k2 * s1) with s2 in Hst by lia. rewrite <- Hnum2 in Hst. fold e2 in Hst.
+  pose proof (divides_spec s1 (s * s2) H1 Hd2) as Hq2. set (q2 := s * s2 / s1) in *.
+  destruct (quot_exact (s * s2) s1 q2 H1 Hq2) as [Hquot2 _]. rewrite Hquot2.
+  assert (Hnum2 : 0 < cdiv (c1 * s2) s1) by (apply cdiv_pos; nia).
+  rewrite (IHh F64 q2 (cdiv (c1 * s2) s1) Hwh ltac:(lia) Hch). cbn [obind]. rewrite zlen_spec_window by lia.
   unfold Field.spec_count in Hc |- *.
-  set (c2 := ecount (eof h) (s * k2) (cdiv (c1 * s2) s1)) in *.
-  assert (Hc2nn : 0 <= c2) by (apply ecount_nonneg; auto).
-  destruct Hst as [Hst0 Hst1].
+  set (c2 := ecount (eof h) q2 (cdiv (c1 * s2) s1)) in *.
+  assert (Hc2nn : 0 <= c2) by (apply ecount_nonneg; lia).
   destruct (Z.eqb_spec c2 0) as [Hz2|Hnz2].
-  { f_equal. symmetry. apply spec_window_nil. rewrite Hcount, (Hst0 Hz2).
+  { f_equal. symmetry. apply spec_window_nil. rewrite Hcount.
+    unfold e2. rewrite (cap_zero (eof h) s q2 c1 s1 s2 _ H1 H2 Hc1 Hq2 Hnum2 Hz2).
     pose proof (cap_le e3 s 0). lia. }
-  destruct (Hst1 ltac:(lia)) as [Hn1 Hb2]. clear Hst0 Hst1.
+  assert (Helt2 : elt q2 (eof h)) by (apply (ecount_pos_elt _ q2 (cdiv (c1 * s2) s1)); fold c2; lia).
+  pose proof (bin_stage (eof h) s q2 c1 s1 s2 H1 H2 ltac:(lia) Hq2 Helt2) as Hst.
+  cbv zeta in Hst. fold c2 in Hst. fold e2 in Hst. destruct Hst as (_ & Hn1 & Hb2).
+  replace (0 <? c2) with true in Hn1, Hb2 by (symmetry; apply Z.ltb_lt; lia).
+  rewrite andb_true_l in Hn1, Hb2.
   replace (c2 <=? 0) with false in Hc by (symmetry; apply Z.leb_gt; lia).
-  set (n1 := if c2 * s1 =? c1 * s2 then c1 else c2 * s1 / s2) in *.
+  set (n1 := if c2 * s1 <? c1 * s2 then c2 * s1 / s2 else c1) in *.
   apply app_nil_inv in Hc. destruct Hc as [Hd3 Hc]. apply tag_if_nil in Hd3. apply negb_false_iff in Hd3.
   apply app_nil_inv in Hc. destruct Hc as [Hal Hcl]. apply tag_if_nil in Hal.
   rewrite Hal.
@@ -405,25 +381,22 @@ Proof.
   assert (Hn1pos : 0 < n1).
   { destruct (Z.eq_dec n1 0) as [E|E]; [|lia]. rewrite E in Hal. simpl in Hal.
     rewrite cdiv_zero in Hal by lia. discriminate. }
-  pose proof (divides_spec s1 s3 H1 Hd3) as Hk3. set (k3 := s3 / s1) in *.
-  assert (Hk3pos : 0 < k3) by nia.
-  assert (Hq3 : s * s3 = (s * k3) * s1) by nia.
-  destruct (quot_exact (s * s3) s1 (s * k3) H1 Hq3) as [Hquot3 Hdiv3].
-  rewrite Hquot3. rewrite Hdiv3 in Hcl.
-  assert (Hnum3 : cdiv (n1 * s3) s1 = n1 * k3).
-  { replace (n1 * s3) with (n1 * k3 * s1) by nia. apply cdiv_mul. lia. }
-  assert (Hnn3 : 0 <= cdiv (n1 * s3) s1) by (rewrite Hnum3; nia).
-  rewrite (IHl F64 _ _ Hwl Hnn3 Hcl). cbn [obind]. rewrite zlen_spec_window by auto.
-  pose proof (lin_stage (eof l) s n1 s1 k3 H1 Hk3pos Hn1pos) as Hst. cbv zeta in Hst.
-  replace (k3 * s1) with s3 in Hst by lia. rewrite <- Hnum3 in Hst. fold e3 in Hst.
+  pose proof (divides_spec s1 (s * s3) H1 Hd3) as Hq3. set (q3 := s * s3 / s1) in *.
+  destruct (quot_exact (s * s3) s1 q3 H1 Hq3) as [Hquot3 _]. rewrite Hquot3.
+  assert (Hnum3 : 0 < cdiv (n1 * s3) s1) by (apply cdiv_pos; nia).
+  rewrite (IHl F64 q3 (cdiv (n1 * s3) s1) Hwl ltac:(lia) Hcl). cbn [obind]. rewrite zlen_spec_window by lia.
   unfold Field.spec_count.
-  set (c3 := ecount (eof l) (s * k3) (cdiv (n1 * s3) s1)) in *.
-  assert (Hc3nn : 0 <= c3) by (apply ecount_nonneg; auto).
-  destruct Hst as [Hst0 Hst1].
+  set (c3 := ecount (eof l) q3 (cdiv (n1 * s3) s1)) in *.
+  assert (Hc3nn : 0 <= c3) by (apply ecount_nonneg; lia).
   destruct (Z.eqb_spec c3 0) as [Hz3|Hnz3].
-  { f_equal. symmetry. apply spec_window_nil. rewrite Hcount, <- Hn1, (Hst0 Hz3). lia. }
-  destruct (Hst1 ltac:(lia)) as [Hn2 Hb3]. clear Hst0 Hst1.
-  set (n2 := if c3 * s1 =? n1 * s3 then n1 else c3 * s1 / s3) in *.
+  { f_equal. symmetry. apply spec_window_nil. rewrite Hcount, <- Hn1.
+    unfold e3. rewrite (cap_zero (eof l) s q3 n1 s1 s3 _ H1 H3 Hn1nn Hq3 Hnum3 Hz3). lia. }
+  assert (Helt3 : elt q3 (eof l)) by (apply (ecount_pos_elt _ q3 (cdiv (n1 * s3) s1)); fold c3; lia).
+  pose proof (bin_stage (eof l) s q3 n1 s1 s3 H1 H3 Hn1pos Hq3 Helt3) as Hst.
+  cbv zeta in Hst. fold c3 in Hst. fold e3 in Hst. destruct Hst as (_ & Hn2 & Hb3).
+  replace (0 <? c3) with true in Hn2, Hb3 by (symmetry; apply Z.ltb_lt; lia).
+  rewrite andb_true_l in Hn2, Hb3.
+  set (n2 := if c3 * s1 <? n1 * s3 then c3 * s1 / s3 else n1) in *.
   f_equal. unfold Field.spec_window at 4. rewrite Hcount, <- Hn1, <- Hn2.
   apply map_zrange_ext2. intros i Hi. rewrite !Z.add_0_l.
   assert (n2 <= n1) by (rewrite Hn2; apply cap_le).
@@ -434,7 +407,7 @@ Proof.
   rewrite buf_spec_window by (unfold Field.spec_count; fold c2; specialize (Hb2 i ltac:(lia)); lia).
   rewrite buf_spec_window by (unfold Field.spec_count; fold c3; specialize (Hb3 i Hi); lia).
   cbn [Field.spec_val]. rewrite Es1, Es2, Es3.
-  rewrite (align_index s i s1 s2 (s * k2) H1 Hq2), (align_index s i s1 s3 (s * k3) H1 Hq3).
+  rewrite (align_index s i s1 s2 q2 H1 Hq2), (align_index s i s1 s3 q3 H1 Hq3).
   reflexivity.
 Qed.
 
@@ -533,7 +506,6 @@ Qed.
 
 Lemma impl_read_mplex rt g h cnt per s n :
   impl_read rt (Mplex g h cnt per) s n =
-  if s =? -1 then None else
   obind (impl_read rt g s n) (fun X =>
   let n1 := zlen X in
   if n1 =? 0 then Some [] else
@@ -563,12 +535,10 @@ Proof. reflexivity. Qed.
 
 Lemma uncovered_mplex rt g h cnt per s n :
   uncovered rt (Mplex g h cnt per) s n =
-  tag_if (s =? -1) THere ++
   (let s1 := spf g in let s2 := spf h in
    let c1 := spec_count g s n in
    uncovered rt g s n ++
    (if c1 <=? 0 then [] else
-    tag_if (Z.quot (s * s2) s1 =? -1) THere ++
     tag_if (negb (s1 =? s2)) TMplexRate ++
     tag_if (s <? 0) TMplexNeg ++
     tag_if (negb (eltb (s * s2 / s1) (eof h))) TEmpty2 ++
@@ -598,9 +568,8 @@ Lemma mplex_case rt g h cnt per s n :
 Proof.
   intros IHg IHh [Hwg Hwh] Hn Hc.
   unfold Field.covered in Hc. rewrite uncovered_mplex in Hc.
-  apply app_nil_inv in Hc. destruct Hc as [Hh Hc]. apply tag_if_nil in Hh.
   cbv zeta in Hc. apply app_nil_inv in Hc. destruct Hc as [Hcg Hc].
-  rewrite impl_read_mplex, Hh. rewrite (IHg rt s n Hwg Hn Hcg). cbn [obind]. cbv zeta.
+  rewrite impl_read_mplex. rewrite (IHg rt s n Hwg Hn Hcg). cbn [obind]. cbv zeta.
   rewrite zlen_spec_window by auto.
   pose proof (spf_pos g Hwg) as H1.
   assert (Hcount : spec_count (Mplex g h cnt per) s n = cap (escale (eof h) (spf g) (spf h)) s (spec_count g s n)).
@@ -610,7 +579,6 @@ Proof.
   { f_equal. symmetry. apply spec_window_nil. rewrite Hcount.
     pose proof (cap_le (escale (eof h) (spf g) (spf h)) s (spec_count g s n)). lia. }
   replace (spec_count g s n <=? 0) with false in Hc by (symmetry; apply Z.leb_gt; lia).
-  apply app_nil_inv in Hc. destruct Hc as [_ Hc].
   apply app_nil_inv in Hc. destruct Hc as [Hr Hc]. apply tag_if_nil in Hr. apply negb_false_iff in Hr.
   apply Z.eqb_eq in Hr. assert (Es2 : spf h = spf g) by (symmetry; exact Hr). clear Hr. rewrite Es2 in *.
   set (s1 := spf g) in *. set (c1 := spec_count g s n) in *.
@@ -702,21 +670,18 @@ Proof.
   induction f; intros rt s n Hwf Hn Hc.
   - apply raw_case; auto.
   - (* INDEX *)
-    unfold Field.covered in Hc. simpl in Hc. rewrite app_nil_r in Hc. apply tag_if_nil in Hc.
-    simpl. rewrite Hc. reflexivity.
+    reflexivity.
   - (* PHASE *)
     unfold Field.covered in Hc. simpl in Hc.
-    apply app_nil_inv in Hc. destruct Hc as [Hh Hc]. apply tag_if_nil in Hh.
-    simpl. rewrite Hh. rewrite (IHf rt (s + shift) n Hwf Hn Hc). f_equal.
+    simpl. rewrite (IHf rt (s + shift) n Hwf Hn Hc). f_equal.
     unfold Field.spec_window, Field.spec_count. cbn [Field.eof].
     replace (ecount (eshift (eof f) (- shift)) s n) with (ecount (eof f) (s + shift) n).
     2:{ destruct (eof f); simpl; [f_equal; lia|reflexivity]. }
     apply map_zrange_ext2. intros i Hi. cbn [Field.spec_val]. f_equal. lia.
   - (* one input *)
     unfold Field.covered in Hc. simpl in Hc.
-    apply app_nil_inv in Hc. destruct Hc as [Hh Hc]. apply tag_if_nil in Hh.
     apply app_nil_inv in Hc. destruct Hc as [Ha Hc]. apply tag_if_nil in Ha.
-    simpl. rewrite Hh, Ha. rewrite (IHf (u_in o rt) s n Hwf Hn Hc). cbn [obind]. f_equal.
+    simpl. rewrite Ha. rewrite (IHf (u_in o rt) s n Hwf Hn Hc). cbn [obind]. f_equal.
     unfold Field.spec_window. rewrite map_map. reflexivity.
   - apply bin_case; auto.
   - apply tri_case; auto.
